@@ -123,6 +123,9 @@ func runC15(r *core.Run) {
 	if r.Bool("snapshot?") {
 		q.SnapshotDir = "snap"
 	}
+	if q.ViaCLI {
+		q.BoolSpelling = r.Intn(10, "bool-flag-spelling")
+	}
 	if r.Bool("one-count?") {
 		q.LaunchVmsas = []uint32{1, 2, 8, 224, 3, 6, 12, 500}[r.Intn(8, "vmsas")] // incl. counts outside the shipped machine-shape list
 	}
